@@ -54,7 +54,7 @@ func checkC17(c *Ctx) {
 		}
 		c.endsBothOrientations("ENDS", fs, "each of them is a well-formed tree")
 	}
-	c.Floor("ENDS", 4)
+	c.Floor("ENDS", 1)
 	c.Floor("GF", 2)
 	c.Floor("SLOTS", 2)
 	c.Floor("PAIR", 8)
